@@ -14,9 +14,22 @@ SINKS = ["direct", "callee"]
 class Chain:
     lang = "python"
 
-    def __init__(self, source, connectors, sink, split=False, defined=False):
-        self.source, self.connectors, self.sink, self.split, self.defined = source, list(connectors), sink, split, defined
-        self.name = "%s__%s__%s%s%s" % (source, "_".join(connectors) or "none", sink, "@split" if split else "", "@def" if defined else "")
+    def __init__(self, source, connectors, sink, split=False, defined=False, multifile=False):
+        self.source, self.connectors, self.sink, self.split, self.defined, self.multifile = source, list(connectors), sink, split, defined, multifile
+        self.name = "%s__%s__%s%s%s%s" % (source, "_".join(connectors) or "none", sink, "@split" if split else "", "@def" if defined else "", "@mf" if multifile else "")
+
+    def files(self):
+        """single-file layout: {p.py}; multi-file layout: the classes and helper functions live in lib.py and are imported by name"""
+        text = self.render()
+        if not self.multifile:
+            return {"p.py": text}
+        import re
+        lines = text.split("\n")
+        k = next(i for i, ln in enumerate(lines) if ln.startswith("def handler("))
+        top, main = lines[:k], lines[k:]
+        names = re.findall(r"^(?:def|class) (\w+)", "\n".join(top), flags=re.M)
+        head = ["from lib import %s" % ", ".join(names), ""] if names else []
+        return {"lib.py": "\n".join(top) + "\n", "p.py": "\n".join(head + main)}
 
     def render(self):
         top, body = ["G0 = None", "", "class Box:", "    def __init__(self):", "        self.f = None", "        self.items = []", "",
@@ -207,8 +220,12 @@ def universe(tier, seed):
     # the same chains under a rule set in which every rule follows a same-name rule restricted to another file
     split = [Chain(c.source, c.connectors, c.sink, split=True) for c in one if len(c.connectors) == 0 or c.connectors[0] in ("assign", "field", "call_return", "list_append")]
     defd = [Chain(s, c, k, defined=True) for s in SOURCES for c in [(), ("assign",), ("reassign_source",), ("field",), ("call_return",), ("reassign_source", "assign")] for k in SINKS]
+    # multi-file layout: helper functions, classes and the callee that holds the sink are defined in another file
+    mf = [Chain(s, c, k, multifile=True) for s in SOURCES for c in [(), ("call_return",), ("field",), ("method_store",), ("two_deep_second_call",), ("kwargs_sink",),
+                                                                      ("call_return", "field"), ("alias_field", "call_return")] for k in SINKS]
+    mf += [Chain(s, c, k, defined=True, multifile=True) for s in SOURCES for c in [(), ("call_return",)] for k in SINKS]
     meth = [Chain(s, c, k) for s in METHOD_SOURCES for c in [(), ("assign",), ("field",), ("call_return",), ("binop", "assign")] for k in SINKS]
-    one = one + defd + meth
+    one = one + defd + meth + mf
     if tier == "thorough":
         return one + split + two
     return one + split + random.Random(seed).sample(two, 60)
